@@ -6,14 +6,14 @@ import json
 import os
 import sys
 
-sys.path.insert(0, '/repo')
+sys.path.insert(0, os.environ.get('VERIF_REPO', '/repo'))
 sys.path.insert(0, os.path.dirname(os.path.abspath(__file__)))
 sys.setrecursionlimit(10000)
 
 
 def compile_repo():
     bad = []
-    for root, _dirs, files in os.walk('/repo/electrumx'):
+    for root, _dirs, files in os.walk(os.environ.get('VERIF_REPO', '/repo') + '/electrumx'):
         for f in files:
             if f.endswith('.py'):
                 try:
